@@ -163,6 +163,78 @@ def _is_new_helper(kj, known):
     return kj is not None and kj.get("def_kind") in ("Fn", "AssocFn") and kj["path"] not in known and "::tests::" not in kj["path"] and not kj.get("closure_of")
 
 
+def _generic_args(ty):
+    """top-level generic arguments of `Path<A, B<..>, C>` as strings"""
+    i = ty.find("<")
+    if i < 0 or not ty.endswith(">"):
+        return []
+    out, depth, cur = [], 0, ""
+    for ch in ty[i + 1:-1]:
+        if ch == "<":
+            depth += 1
+        elif ch == ">":
+            depth -= 1
+        if ch == "," and depth == 0:
+            out.append(cur.strip())
+            cur = ""
+        else:
+            cur += ch
+    if cur.strip():
+        out.append(cur.strip())
+    return out
+
+
+def explicit_error_conversion(fn_jsons, new, crates):
+    """`x?` where the error of x is converted by an `impl From<E1> for E2` of this crate that is *new* (not in the reference
+    inventory): std's `from_residual` calls that impl out of sight. The call is written out — `e = From::from(residual
+    error); return Err(e)` — so that the conversion is spliced in like any other new helper and the rules see which error
+    is returned. Conversions through impls of the reference inventory stay as they are (the rules know them by name)."""
+    n = 0
+    for p, (cj, c) in fn_jsons.items():
+        if c not in crates:
+            continue
+        for bi in range(len(cj["blocks"])):
+            blk = cj["blocks"][bi]
+            t = blk["term"]
+            if t.get("k") != "call" or t.get("callee_name") != "from_residual" or not isinstance(t.get("target"), int):
+                continue
+            inst = t.get("callee_inst") or ""
+            mark = " as std::ops::FromResidual<"
+            if not inst.startswith("<") or mark not in inst or not inst.endswith(">>::from_residual"):
+                continue
+            a_ty = inst[1:inst.index(mark)]
+            b_ty = inst[inst.index(mark) + len(mark):-len(">::from_residual") - 0]
+            b_ty = b_ty[:-1] if b_ty.endswith(">") and b_ty.count("<") < b_ty.count(">") else b_ty
+            if not a_ty.startswith("std::result::Result<") or not b_ty.startswith("std::result::Result<"):
+                continue
+            ga, gb = _generic_args(a_ty), _generic_args(b_ty)
+            if len(ga) != 2 or len(gb) != 2 or ga[1] == gb[1]:
+                continue
+            e2, e1 = ga[1], gb[1]
+            impl = "<%s as std::convert::From<%s>>::from" % (e2, e1)
+            if impl not in new or len(t.get("args", [])) != 1:
+                continue
+            arg = t["args"][0]
+            pl = arg.get("move") or arg.get("copy")
+            if not _is_place(pl) or pl.get("p"):
+                continue
+            sp = t.get("sp")
+            locs = cj["body"]["locals"]
+            l_e1 = len(locs)
+            locs.append({"ty": e1, "mut": True})
+            l_e2 = len(locs)
+            locs.append({"ty": e2, "mut": True})
+            blk["stmts"].append({"k": "assign", "lhs": {"l": l_e1}, "rv": {"k": "use", "a": {"move": {"l": pl["l"], "p": [{"v": 1, "vn": "Err"}, {"f": 0, "n": "0", "of": b_ty, "ty": e1}]}}}, "sp": sp})
+            cont = len(cj["blocks"])
+            cj["blocks"].append({"stmts": [{"k": "assign", "lhs": copy.deepcopy(t["dest"]), "rv": {"k": "agg", "ak": "adt", "adt": "std::result::Result", "variant": "Err", "vidx": 1, "fields": ["0"], "ops": [{"move": {"l": l_e2}}]}, "sp": sp}],
+                                 "term": {"k": "goto", "target": t["target"], "sp": sp}, "residual_conversion": impl})
+            blk["term"] = {"k": "call", "src": "Normal", "callee": impl, "callee_inst": impl, "callee_name": "from", "callee_trait": "std::convert::From", "self_ty": e2,
+                           "resolved": impl, "resolved_kind": "item", "args": [{"move": {"l": l_e1}}], "dest": {"l": l_e2}, "target": cont, "unwind": t.get("unwind"), "sp": sp,
+                           "written_out": "from_residual"}
+            n += 1
+    return n
+
+
 def run(fn_jsons, crates=("findutils", "find", "xargs")):
     """fn_jsons: {path: (json, crate)}; inlines new helpers in place; returns {caller: [inlined callee, ...]}"""
     known = known_fns()
@@ -171,6 +243,7 @@ def run(fn_jsons, crates=("findutils", "find", "xargs")):
     new = {p for p, (j, c) in fn_jsons.items() if c in crates and _is_new_helper(j, known)}
     if not new:
         return {}
+    explicit_error_conversion(fn_jsons, new, crates)
     # pristine copies of the callees (a callee body is spliced as it was written, nested helpers are handled by the
     # passes below with a stack check)
     pristine = {p: copy.deepcopy(fn_jsons[p][0]) for p in new}
